@@ -1042,7 +1042,7 @@ func runCLI(ctx context.Context, t interface {
 func TestCLI(t *testing.T) {
 	r := evid.R()
 	ctx := context.Background()
-	r.Check(t, r.Scale(160, 3000), 3, func(t *rapid.T) {
+	r.Check(t, r.Scale(320, 3000), 3, func(t *rapid.T) {
 		c, _ := genCase(t)
 		c.Layout = "cli"
 		if rapid.Bool().Draw(t, "targetsub") {
@@ -1201,7 +1201,7 @@ func runPins(ctx context.Context, t interface {
 func TestNewestPinnedCommit(t *testing.T) {
 	r := evid.R()
 	ctx := context.Background()
-	r.Check(t, r.Scale(300, 6000), 4, func(t *rapid.T) {
+	r.Check(t, r.Scale(900, 6000), 4, func(t *rapid.T) {
 		n := rapid.IntRange(1, 6).Draw(t, "pins")
 		hours := rapid.Permutation([]int{1, 2, 3, 5, 8, 13, 21, 34}).Draw(t, "hours")[:n]
 		c := &PinCase{Layout: "pins", Hours: hours, LocalToo: rapid.IntRange(0, 4).Draw(t, "localtoo") == 0, Duplicate: rapid.Bool().Draw(t, "dup")}
